@@ -1,10 +1,14 @@
-//! acc_arity: asks the generator under test (as a library) which `SeqN` / `ChoiceN` types a grammar's
-//! generated `generics` module DEFINES by expanding `pest_typed::seq!` / `pest_typed::choices!` in place
-//! ("local") and which it re-exports from the runtime crate ("lib").  The accessor harness implements its
-//! show-trait for the local ones in the generated binary; the library ones are covered by acc_common itself.
+//! acc_arity: asks the generator under test (as a library) what a grammar's generated module needs from the
+//! accessor harness:
+//!   used  = every `generics :: SeqN` / `generics :: ChoiceN` named in the emitted code,
+//!   lib   = those of them the `generics` module re-exports with a `use` item (types of the runtime crate),
+//!   local = used − lib (types the module defines itself, by whatever macro): the harness implements its
+//!           show-trait for these in the generated binary,
+//!   uni   = the Unicode property types the module re-exports (`pub mod unicode { pub use …::{A, B}; }`).
+//! Nothing is read from the sources of /repo; no macro name is assumed.
 //!
-//! stdin : `<gid>\t<hex grammar>` per line
-//! stdout: `<gid>\tOK\tlocal=Seq13,Choice14\tlib=Seq2,Choice3` or `<gid>\tPANIC`
+//! stdin : `<gid>\t<hex grammar>\t<hex derive attributes or ->` per line
+//! stdout: `<gid>\tOK\tlocal=Seq13,Choice14\tlib=Seq2,Choice3\tuni=LETTER,HAN` or `<gid>\tPANIC`
 use std::io::{self, BufRead, Write};
 use std::str::FromStr;
 
@@ -25,6 +29,32 @@ fn arity_name(t: &str) -> Option<String> {
     }
     None
 }
+/// identifiers and punctuation of a token stream's text, one per element
+fn lex(s: &str) -> Vec<String> {
+    let mut out = vec![];
+    let mut cur = String::new();
+    for c in s.chars() {
+        if c.is_alphanumeric() || c == '_' || c == '#' {
+            cur.push(c);
+        } else {
+            if !cur.is_empty() {
+                out.push(std::mem::take(&mut cur));
+            }
+            if !c.is_whitespace() {
+                out.push(c.to_string());
+            }
+        }
+    }
+    if !cur.is_empty() {
+        out.push(cur);
+    }
+    out
+}
+fn push(v: &mut Vec<String>, x: String) {
+    if !v.contains(&x) {
+        v.push(x);
+    }
+}
 fn main() {
     std::panic::set_hook(Box::new(|_| {}));
     let out = io::stdout();
@@ -36,44 +66,60 @@ fn main() {
             continue;
         }
         let text = unhex(f[1]);
-        let src = format!("#[grammar_inline = {:?}]\n#[no_warnings]\nstruct P;", text);
+        let attrs = unhex(f.get(2).copied().unwrap_or("-"));
+        let src = format!("#[grammar_inline = {:?}]\n{}\n#[no_warnings]\nstruct P;", text, attrs);
         let res = std::panic::catch_unwind(move || {
             let input = proc_macro2::TokenStream::from_str(&src).expect("derive input does not lex");
             pest_typed_generator::derive_typed_parser(input, false, false).to_string()
         });
         match res {
             Ok(ts) => {
-                let toks: Vec<&str> = ts.split_whitespace().collect();
-                let (mut local, mut lib) = (vec![], vec![]);
-                for i in 0..toks.len() {
-                    // `seq ! ( SeqN ,` / `choices ! ( ChoiceN ,`
-                    if (toks[i] == "seq" || toks[i] == "choices") && toks.get(i + 1) == Some(&"!") {
-                        let mut j = i + 2;
-                        while j < toks.len() && (toks[j] == "(" || toks[j] == "{" || toks[j] == "[") {
-                            j += 1;
-                        }
-                        if let Some(n) = toks.get(j).and_then(|t| arity_name(t.trim_start_matches(|c| c == '(' || c == '{' || c == '[').trim_end_matches(','))) {
-                            if !local.contains(&n) {
-                                local.push(n);
-                            }
+                let toks = lex(&ts);
+                let (mut used, mut lib, mut uni) = (vec![], vec![], vec![]);
+                let mut i = 0;
+                while i < toks.len() {
+                    // `generics :: SeqN`
+                    if toks[i] == "generics" && toks.get(i + 1).map(|s| s.as_str()) == Some(":") && toks.get(i + 2).map(|s| s.as_str()) == Some(":") {
+                        if let Some(n) = toks.get(i + 3).and_then(|t| arity_name(t)) {
+                            push(&mut used, n);
                         }
                     }
-                    // `pub use <path> :: SeqN ;`
+                    // `use <path> ;` whose last segment (or a member of a `{..}` group) is SeqN / ChoiceN
                     if toks[i] == "use" {
                         let mut j = i + 1;
-                        while j < toks.len() && toks[j] != ";" && j < i + 40 {
-                            j += 1;
-                        }
-                        if j < toks.len() && j >= 1 {
-                            if let Some(n) = arity_name(toks[j - 1]) {
-                                if !lib.contains(&n) {
-                                    lib.push(n);
+                        while j < toks.len() && toks[j] != ";" {
+                            if let Some(n) = arity_name(&toks[j]) {
+                                let nxt = toks.get(j + 1).map(|s| s.as_str());
+                                if nxt == Some(";") || nxt == Some(",") || nxt == Some("}") {
+                                    push(&mut lib, n);
                                 }
                             }
+                            j += 1;
                         }
                     }
+                    // `mod unicode { ... }`
+                    if toks[i] == "mod" && toks.get(i + 1).map(|s| s.as_str()) == Some("unicode") && toks.get(i + 2).map(|s| s.as_str()) == Some("{") {
+                        let mut depth = 0i32;
+                        let mut j = i + 2;
+                        while j < toks.len() {
+                            if toks[j] == "{" {
+                                depth += 1;
+                            } else if toks[j] == "}" {
+                                depth -= 1;
+                                if depth == 0 {
+                                    break;
+                                }
+                            } else if toks[j].len() > 1 && toks[j].chars().all(|c| c.is_ascii_uppercase() || c.is_ascii_digit() || c == '_') && toks[j].chars().next().unwrap().is_ascii_uppercase() {
+                                push(&mut uni, toks[j].clone());
+                            }
+                            j += 1;
+                        }
+                    }
+                    i += 1;
                 }
-                writeln!(out, "{}\tOK\tlocal={}\tlib={}", f[0], local.join(","), lib.join(",")).unwrap();
+                let local: Vec<String> = used.iter().filter(|u| !lib.contains(u)).cloned().collect();
+                let libused: Vec<String> = lib.clone();
+                writeln!(out, "{}\tOK\tlocal={}\tlib={}\tuni={}", f[0], local.join(","), libused.join(","), uni.join(",")).unwrap();
             }
             Err(_) => writeln!(out, "{}\tPANIC", f[0]).unwrap(),
         }
